@@ -422,7 +422,7 @@ func runC13(c C13Case, x *vstat.Ctx) error {
 		}
 	}
 	for _, t := range []string{"t1", "t2"} {
-		reconcileKnown(w, x, ref, z, t)
+		reconcileKnown(w, x, ref, z, t, len(c.Populate)+1)
 		if err := checkGet(w, x, ref, GetSpec{Target: t}, "after the request"); err != nil {
 			return err
 		}
